@@ -26,7 +26,7 @@ SCMP_ERR = "create_scmp_error"
 
 
 def ok_exits(body):
-    return [bb for (bb, idx, adt, var) in T.result_variant_defs(body) if adt == "std::result::Result" and var == "Ok"]
+    return [bb for (bb, idx, adt, var) in T.result_variant_defs(body) if adt == "core::result::Result" and var == "Ok"]
 
 
 def run(F, R, tier, cfg):
